@@ -17,6 +17,8 @@ CANARIES = {
                          "        datum = self.name, self.source_id, self.target_id, self._lexicon")],
     'empty-filter': ('wn._queries', "    if relation_types and '*' not in relation_types:\n        constraint = f'WHERE type IN ({_qs(relation_types)})'\n        params.extend(relation_types)\n    params.extend(lexicon_rowids)\n    params.append(source_rowid)\n    query = f'''\n          WITH rt(rowid, type) AS\n               (SELECT rowid, type FROM relation_types {constraint}),\n               lexrowids(rowid) AS (VALUES {_vs(lexicon_rowids)})\n        SELECT DISTINCT rel.type, rel.lexicon, rel.metadata,\n                        rel.source_rowid,",
                      "    if '*' not in relation_types:\n        constraint = f'WHERE type IN ({_qs(relation_types)})'\n        params.extend(relation_types)\n    params.extend(lexicon_rowids)\n    params.append(source_rowid)\n    query = f'''\n          WITH rt(rowid, type) AS\n               (SELECT rowid, type FROM relation_types {constraint}),\n               lexrowids(rowid) AS (VALUES {_vs(lexicon_rowids)})\n        SELECT DISTINCT rel.type, rel.lexicon, rel.metadata,\n                        rel.source_rowid,"),
+    'retry-loses-wordnet': ('wn._core', "    if not results and normalize:\n        results = [\n            cls(*data, _wordnet=w)  # type: ignore",
+                            "    if not results and normalize:\n        results = [\n            cls(*data)  # type: ignore"),
     'closure-no-visited': ('wn._core', "            if relatable.id not in visited:\n                visited.add(relatable.id)",
                            "            if True:\n                visited.add(relatable.id)"),
     'self-loop-guard': ('wn._core', "            if target._id != self._id  # avoid self loops?\n", ""),
@@ -204,6 +206,51 @@ def h_sense_relations(k1: int, y1: int, d1: int, x2: bool, k2: int, y2: int, syn
     return rt.verdict(ok)
 
 
+def _lower(s):
+    return s.lower()
+
+
+def h_lookup(k1: int, y1: int, k2: int, y2: int, ksc: int, way: int) -> bool:
+    """
+    pre: 0 <= k1 < 3 and 0 <= y1 < 2 and 0 <= k2 < 3 and 0 <= y2 < 2 and 0 <= ksc < 3
+    pre: way == rt.part(5)[0]
+    post: _
+    """
+    # the relations of an entity do not depend on how it was looked up: by id, by its form as
+    # stored, or by a form that only matches after normalisation (second pass of the lookup)
+    slots = [(False, _pick(['b', 'a', 'c'], k1), _pick(SYN_TYPES, y1), None),
+             (True, _pick(['b', 'c', 'a'], k2), _pick(SYN_TYPES, y2), None)]
+    sen = [(False, 't', 'antonym', None), (True, 'u', 'also', None)]
+    _db(slots, sen)
+    scope = _pick(['L:1', 'L:1 X:1', None], ksc)
+    w = wn.Wordnet(scope, normalizer=_lower) if scope else wn.Wordnet(normalizer=_lower)
+
+    def syn_t(x):
+        return [sorted((r.name, t.id, r.lexicon().specifier()) for r, t in x.relation_map().items()),
+                sorted(t.id for t in x.get_related()), sorted(t.id for t in x.closure('hypernym', 'also'))]
+
+    def sen_t(x):
+        return [sorted((r.name, t.id, r.lexicon().specifier()) for r, t in x.relation_map().items()),
+                sorted(t.id for t in x.get_related())]
+    ref_a, ref_s = syn_t(w.synset('a')), sen_t(w.sense('s'))
+    if way == 0:
+        got_a = syn_t([x for x in w.synsets('w') if x.id == 'a'][0])
+        got_s = sen_t([x for x in w.senses('w') if x.id == 's'][0])
+    elif way == 1:
+        got_a = syn_t([x for x in w.synsets('W') if x.id == 'a'][0])
+        got_s = sen_t([x for x in w.senses('W') if x.id == 's'][0])
+    elif way == 2:
+        got_s = sen_t([x for x in w.words('W')[0].senses() if x.id == 's'][0])
+        got_a = syn_t([x for x in w.words('W')[0].synsets() if x.id == 'a'][0])
+    elif way == 3:
+        got_a = syn_t([x for x in w.senses('W') if x.id == 's'][0].synset())
+        got_s = sen_t([x for x in w.synsets('W') if x.id == 'a'][0].senses()[0])
+    else:
+        got_a = syn_t([x for x in w.synsets('W', pos='n') if x.id == 'a'][0])
+        got_s = sen_t([x for x in w.senses('W', pos='n') if x.id == 's'][0])
+    return rt.verdict(got_a == ref_a and got_s == ref_s)
+
+
 def h_closure(b0: bool, b1: bool, b2: bool, b3: bool, b4: bool, b5: bool, b6: bool, b7: bool,
               b8: bool) -> bool:
     """
@@ -256,6 +303,17 @@ _F = ['wn._core.Synset.relations/get_related/relation_map/_iter_relations/_iter_
       'get_sense_relations', 'get_sense_synset_relations',
       'wn._add._insert_synset_relations/_insert_sense_relations/_update_lookup_tables']
 OBLIGATIONS = [
+    Ob('lookup-independence', 'h_lookup', parts=5, quick=dict(timeout=250), thorough=dict(timeout=600),
+       canary=[('retry-loses-wordnet', 1)],
+       functions=['wn._core._find_helper (both passes)', 'Wordnet.words/senses/synsets/synset/sense',
+                  'Word.senses/synsets', 'Sense.synset', 'Synset.senses'] + [],
+       stubs=['vf.sqlmodel', 'Wordnet(normalizer=str.lower); normalize_form = identity while adding'],
+       symbolic='targets and types of a base relation and of a relation the extension adds to the '
+                'same synset; scope (base only, base + extension, default mode); the way the entity '
+                'is reached (partition): form as stored, form that needs normalisation, via the word, '
+                'via the sense / synset, with a pos',
+       bounds='relation_map / get_related / closure of synset a and sense s equal those of the '
+              'entity fetched by id in the same Wordnet'),
     Ob('synset-relations', 'h_synset_relations', parts=8, quick=dict(timeout=250),
        thorough=dict(timeout=1200), canary=[('owner-filter', 4), ('subtype-ignored', 1)],
        functions=_F, stubs=['vf.sqlmodel', 'normalize_form = identity'],
